@@ -327,18 +327,36 @@ def vec_cm(v3):
     return [qv(q) for q in v3]
 
 
+def _whole_cm(units):
+    cm = units * U
+    assert abs(cm - round(cm)) < 1e-12, "construction with ints needs a whole number of cm: %r units" % units
+    return int(round(cm))
+
+
 def make_grid(grids, d, armi_object=None):
-    """the real grid a GridGeom descriptor denotes (factories of the public API)"""
+    """the real grid a GridGeom descriptor denotes (factories of the public API).  d["how"] is the construction route:
+    "factory" = float arguments, "ints" = the same factory called with python ints, "ctor" = the class constructor
+    with whole-number unit steps given as python ints (an integer numpy array inside the grid)."""
     import numpy as np
 
+    how = d.get("how", "factory")
     off = [x * U for x in d["off"]]
     if d["kind"] == "hex":
-        g = grids.HexGrid.fromPitch(d["p"][0] * U, numRings=d["rings"], armiObject=armi_object,
+        pitch = _whole_cm(d["p"][0]) if how == "ints" else d["p"][0] * U
+        g = grids.HexGrid.fromPitch(pitch, numRings=d["rings"], armiObject=armi_object,
                                     cornersUp=(d["var"] == "corners"), symmetry=d["sym"])
         if any(off):
             g.offset = np.array(off)
+    elif d["kind"] == "cart" and how == "ctor":
+        wd, ht, r = _whole_cm(d["p"][0]), _whole_cm(d["p"][1]), d["rings"]
+        offset = None
+        if d["var"] == "offset":  # what fromRectangle(isOffset=True) passes, as ints where they are whole
+            offset = tuple(int(x) if float(x) == int(x) else x for x in (wd / 2.0, ht / 2.0, 0.0))
+        g = grids.CartesianGrid(unitSteps=((wd, 0, 0), (0, ht, 0), (0, 0, 0)), unitStepLimits=((-r, r), (-r, r), (0, 1)),
+                                offset=offset, symmetry=d["sym"], armiObject=armi_object)
     elif d["kind"] == "cart":
-        g = grids.CartesianGrid.fromRectangle(d["p"][0] * U, d["p"][1] * U, numRings=d["rings"], symmetry=d["sym"],
+        wd, ht = (_whole_cm(d["p"][0]), _whole_cm(d["p"][1])) if how == "ints" else (d["p"][0] * U, d["p"][1] * U)
+        g = grids.CartesianGrid.fromRectangle(wd, ht, numRings=d["rings"], symmetry=d["sym"],
                                               isOffset=(d["var"] == "offset"), armiObject=armi_object)
     elif d["kind"] == "ax" and d["var"] == "unit":
         g = grids.AxialGrid.fromNCells(len(d["zb"]) - 1, armiObject=armi_object)  # the public factory: 1 cm cells
@@ -452,7 +470,7 @@ KIND_CLASS = {"hex": "HexGrid", "cart": "CartesianGrid", "ax": "AxialGrid", "trz
 class ReduceAdapter:
     part = "reduce"
     module = "Reduce_mc"
-    actions = ("ChangePitch", "SetOffset", "Rebuild", "NoPitch")
+    actions = ("ChangePitch", "SetOffset", "BackUp", "RestoreBackup", "Snapshot", "Rebuild", "NoPitch")
 
     def __init__(self):
         armi_ready()
@@ -461,7 +479,8 @@ class ReduceAdapter:
         self.grids = grids
 
     def build(self, root):
-        return {"g": make_grid(self.grids, root["g"]), "d": root["g"], "err": ""}
+        assert root["stack"] == [] and root["taken"] == []
+        return {"g": make_grid(self.grids, root["g"]), "d": root["g"], "taken": None, "err": ""}
 
     def apply(self, w, a):
         import numpy as np
@@ -476,6 +495,13 @@ class ReduceAdapter:
                 g.changePitch(a["p"][0] * U, a["p"][1] * U)
         elif n == "SetOffset":
             g.offset = np.array([x * U for x in a["off"]])
+        elif n == "BackUp":
+            g.backUp()
+        elif n == "RestoreBackup":
+            g.restoreBackup()
+        elif n == "Snapshot":
+            args = g.reduce()
+            w["taken"] = (type(g), args, type(g)(*args))  # the stored tuple and a twin built from it
         elif n == "Rebuild":
             args = g.reduce()
             new = type(g)(*args)
@@ -493,42 +519,51 @@ class ReduceAdapter:
     def state(self, w):
         return {}
 
-    def check(self, w, e):
+    def check(self, w, exp):
         c = Cmp()
-        g = w["g"]
+        self.check_grid(c, w["g"], exp["grid"], "")
+        c.eq("taken", len(exp["taken"]), 0 if w["taken"] is None else 1)
+        if exp["taken"] and w["taken"] is not None:
+            cls, args, twin = w["taken"]
+            # state taken earlier must still describe the grid as it was then
+            self.check_grid(c, twin, exp["taken"][0], "taken.twin.")
+            self.check_grid(c, cls(*args), exp["taken"][0], "taken.args.")
+        return c.d
+
+    def check_grid(self, c, g, e, pre):
         kind = e["kind"]
         scale = max([abs(x) for x in e["pitch"]] + [abs(x) for x in e["offset"]] + [1] +
                     [abs(x) for b in e["bounds"] for x in b]) * U * 8
-        c.eq("kind", KIND_CLASS[kind], type(g).__name__)
+        c.eq(pre + "kind", KIND_CLASS[kind], type(g).__name__)
         red = g.reduce()
         if kind == "hex":
-            c.eq("var", e["var"], "corners" if g.cornersUp else "flats")
-            c.num("pitch", e["pitch"][0] * U, scale, call(lambda: g.pitch))
+            c.eq(pre + "var", e["var"], "corners" if g.cornersUp else "flats")
+            c.num(pre + "pitch", e["pitch"][0] * U, scale, call(lambda: g.pitch))
         elif kind == "cart":
-            c.eq("var", e["var"], "centred" if g._isThroughCenter() else "offset")
-            c.vec("pitch", [x * U for x in e["pitch"]], scale, call(lambda: g.pitch))
-        c.vec("offset", [x * U for x in e["offset"]], scale, g.offset)
-        c.eq("reducedOffsetIsNone", e["reducedOffsetIsNone"], red.offset is None)
+            c.eq(pre + "var", e["var"], "centred" if g._isThroughCenter() else "offset")
+            c.vec(pre + "pitch", [x * U for x in e["pitch"]], scale, call(lambda: g.pitch))
+        c.vec(pre + "offset", [x * U for x in e["offset"]], scale, g.offset)
+        c.eq(pre + "reducedOffsetIsNone", e["reducedOffsetIsNone"], red.offset is None)
         if red.offset is not None:
-            c.vec("offset", [x * U for x in e["offset"]], scale, red.offset)
+            c.vec(pre + "offset", [x * U for x in e["offset"]], scale, red.offset)
         ang = [EIGHTH if kind == "trz" else U, U, U]
         for dim, (eb, gb, rb) in enumerate(zip(e["bounds"], g.getBounds(), red.bounds)):
             if not eb:
-                c.true("bounds", gb is None and rb is None, "dimension %d should be step-defined" % dim)
+                c.true(pre + "bounds", gb is None and rb is None, "dimension %d should be step-defined" % dim)
             else:
-                c.vec("bounds", [x * ang[dim] for x in eb], scale, gb, rb)
-        c.eq("limits", e["limits"], [ints(x) for x in g.getIndexBounds()])
-        c.eq("nloc", e["nloc"], len(g))
-        c.eq("sym", e["sym"], red.symmetry, g._symmetry)
-        c.eq("geom", e["geom"], red.geomType, g._geomType)
+                c.vec(pre + "bounds", [x * ang[dim] for x in eb], scale, gb, rb)
+        c.eq(pre + "limits", e["limits"], [ints(x) for x in g.getIndexBounds()])
+        c.eq(pre + "nloc", e["nloc"], len(g))
+        c.eq(pre + "sym", e["sym"], red.symmetry, g._symmetry)
+        c.eq(pre + "geom", e["geom"], red.geomType, g._geomType)
         if e["sym"]:
-            c.eq("sym", e["sym"], str(g.symmetry))
+            c.eq(pre + "sym", e["sym"], str(g.symmetry))
         if e["geom"]:
-            c.eq("geom", e["geom"], str(g.geomType))
-        c.eq("axial", e["axial"], bool(g.isAxialOnly))
+            c.eq(pre + "geom", e["geom"], str(g.geomType))
+        c.eq(pre + "axial", e["axial"], bool(g.isAxialOnly))
         for t, ce in enumerate(e["cells"]):
             idx = tuple(ce["idx"])
-            f = "cells.%d" % t
+            f = pre + "cells.%d" % t
             loc = g[idx]
             conv = (lambda v3: [v3[0][0] * EIGHTH, qv(v3[1]), qv(v3[2])]) if kind == "trz" else vec_cm
             c.vec(f + ".centre", conv(ce["centre"]), scale, call(g.getCoordinates, idx, nativeCoords=True),
@@ -544,24 +579,31 @@ class ReduceAdapter:
             if kind in ("hex", "trz"):
                 back = call(g.getIndicesFromRingAndPos, *ce["rp"])
                 c.eq(f + ".rp", ce["idx"][:2], back if isinstance(back, str) else ints(back))
-        return c.d
+
+
+class ReduceStackAdapter(ReduceAdapter):
+    """thorough only: the smaller pitch set with a backUp stack of depth 2 (nested backUp/restoreBackup)"""
+    part = "reduce2"
 
 
 def _plain_args(args):
     return json.dumps(_plain(list(args)), sort_keys=True)
 
 
-ADAPTERS = {"hex": HexAdapter, "cart": CartAdapter, "nested": NestedAdapter, "reduce": ReduceAdapter}
+ADAPTERS = {"hex": HexAdapter, "cart": CartAdapter, "nested": NestedAdapter, "reduce": ReduceAdapter,
+            "reduce2": ReduceStackAdapter}
 CFG = {  # part -> (exhaustive cfg, emission cfg) per tier
     "quick": {"hex": ("HexLattice_mc.cfg", "HexLattice_emit.cfg"), "cart": ("CartLattice_mc.cfg", "CartLattice_emit.cfg"),
               "nested": ("Nested_mc.cfg", "Nested_emit.cfg"), "reduce": ("Reduce_mc.cfg", "Reduce_emit.cfg")},
     "thorough": {"hex": ("HexLattice_mc_thorough.cfg", "HexLattice_emit_thorough.cfg"),
                  "cart": ("CartLattice_mc_thorough.cfg", "CartLattice_emit_thorough.cfg"),
                  "nested": ("Nested_mc_thorough.cfg", "Nested_emit_thorough.cfg"),
-                 "reduce": ("Reduce_mc.cfg", "Reduce_emit.cfg")},
+                 "reduce": ("Reduce_mc_thorough.cfg", "Reduce_emit_thorough.cfg"),
+                 "reduce2": ("Reduce_mc_stack2.cfg", "Reduce_emit_stack2.cfg")},
 }
-MAX_EDGES = {"quick": {"hex": None, "cart": None, "nested": 8000, "reduce": None},
-             "thorough": {"hex": None, "cart": None, "nested": None, "reduce": None}}
+PARTS = {"quick": ["hex", "cart", "nested", "reduce"], "thorough": ["hex", "cart", "nested", "reduce", "reduce2"]}
+MAX_EDGES = {"quick": {"hex": None, "cart": None, "nested": 8000, "reduce": 6000},
+             "thorough": {"hex": None, "cart": None, "nested": None, "reduce": None, "reduce2": 20000}}
 
 
 # ------------------------------------------------------------------------------------------------------------
@@ -582,10 +624,11 @@ def violation_key(part, act, field, world_state, exp, msg):
     raw = field
     field = re.sub(r"\.\d+", "", field)
     # one input class / call site: locatorLabelToIndices on a Cartesian label that contains a negative index
+    # (fixed in /repo by 37a4095; the key stays so that a regression maps to the recorded finding)
     if part == "cart" and field in ("nums2", "nums3") and "ValueError" in msg and min(exp["cell"]["c"]) < 0:
         return "replay:cart:label-to-indices:negative-index"
-    m = re.match(r"cells\.(\d+)\.nums$", raw)
-    if part == "reduce" and m and "ValueError" in msg and exp["kind"] == "cart" and min(exp["cells"][int(m.group(1))]["idx"][:2]) < 0:
+    if (part.startswith("reduce") and raw.endswith(".nums") and "ValueError" in msg and exp["grid"]["kind"] == "cart"
+            and re.search(r"expected \[[^\]]*-\d", msg)):
         return "replay:cart:label-to-indices:negative-index"
     return "replay:%s:%s:%s" % (part, act, field)
 
@@ -660,7 +703,7 @@ def run_tlc_jobs(tier, parts):
 
 def run(rep, tier, seed):
     tier = "thorough" if tier == "thorough" else "quick"
-    parts = ["hex", "cart", "nested", "reduce"]
+    parts = PARTS[tier]
     for part in parts:
         tlc.sany(ADAPTERS[part].module, MODDIR)
     results = run_tlc_jobs(tier, parts)
@@ -700,12 +743,9 @@ def run(rep, tier, seed):
         rep.sample({"part": part, "path": [s["act"] for s in graph.path[e["_fk"]]][-4:], "act": e["act"],
                     "expected_obs": _trim(e["obs"])})
     rep.exhaustive = True
-    if MAX_EDGES[tier]["nested"] is None:
-        rep.note("every emitted edge of every part was replayed")
-    else:
-        rep.note("nested: a seeded sample of %d of the emitted edges is replayed in this tier (all root states and, through "
-                 "the BFS paths, all kinds of nesting are still visited); every other part replays all edges"
-                 % MAX_EDGES[tier]["nested"])
+    sampled = {p: MAX_EDGES[tier][p] for p in parts if MAX_EDGES[tier][p] is not None}
+    rep.note("edges replayed: all, except a seeded sample in %s (all root states and, through the BFS paths, every kind "
+             "of object are still visited)" % (sampled or "no part"))
     rep.assume(
         "tolerance: |a-b| <= 1e-9*max(|a|,|b|) + 1e-9*(length scale of the case): a handful of double operations, sums that cancel",
         "hex lattice units: x,y = lattice integer * (pitch/2 or pitch/(2*sqrt(3))) + offset; GridGeom units: (a + b*sqrt(3)) * 0.01 cm",
@@ -969,6 +1009,39 @@ def _mutants():
         return f
     mutant("IndexLocation.parentLocation: 'owner has a parent' test dropped", ["nested"], IL, "parentLocation", m24, "property")
 
+    # 25 (second seeding round, missed then) Cartesian changePitch writes the new widths into the existing array:
+    #    an integer array truncates them, and the array is shared with what backUp() saved
+    def m25(orig):
+        def f(self, xw, yw):
+            xwOld = self._unitSteps[0][0]
+            ywOld = self._unitSteps[1][1]
+            self._unitSteps[0][0] = xw
+            self._unitSteps[1][1] = yw
+            self._offset = np.array((self._offset[0] * xw / xwOld, self._offset[1] * yw / ywOld, 0.0))
+        return f
+    mutant("CartesianGrid.changePitch: new widths written in place", ["reduce"], Cart, "changePitch", m25)
+
+    # 26 the same for hex grids (only the aliasing with backUp() can show: hex unit steps are never integers)
+    def m26(orig):
+        def f(self, newPitchCm):
+            self._unitSteps[...] = np.array(HexGrid._getRawUnitSteps(newPitchCm, self.cornersUp))[self._stepDims]
+        return f
+    mutant("HexGrid.changePitch: unit steps overwritten in place", ["reduce"], HexGrid, "changePitch", m26)
+
+    # 27 the offset setter writes into the existing array (shared with backUp() state)
+    def m27(orig):
+        def f(self, offset):
+            self._offset[...] = offset
+        return f
+    mutant("StructuredGrid.offset setter: in place", ["reduce"], SG, "offset", m27, "setter")
+
+    # 28 restoreBackup forgets the offset
+    def m28(orig):
+        def f(self):
+            self._unitSteps, self._bounds, _off, self._backup = self._backup
+        return f
+    mutant("StructuredGrid.restoreBackup: offset not restored", ["reduce"], SG, "restoreBackup", m28)
+
     # 20 global cell base uses the parent's centre
     def m20(orig):
         def f(self):
@@ -994,7 +1067,7 @@ def selftest():
     for part in parts:
         graphs[part] = load_graph(futs[part].result())
     ads = {part: ADAPTERS[part]() for part in parts}
-    limit = {"hex": None, "cart": None, "nested": 3000, "reduce": None}
+    limit = {"hex": None, "cart": None, "nested": 3000, "reduce": 4000}
     base = {}
     for part in parts:
         _, _, divs = replay_part(ads[part], graphs[part][0], graphs[part][1], limit[part], random.Random(0))
@@ -1004,10 +1077,12 @@ def selftest():
     for name, mparts, obj, attr, make, static in _mutants():
         orig_attr = obj.__dict__[attr] if isinstance(obj, type) else getattr(obj, attr)
         orig = orig_attr.__func__ if isinstance(orig_attr, (staticmethod, classmethod)) else orig_attr
-        new = make(orig) if static != "property" else None
+        new = make(orig) if static not in ("property", "setter") else None
         if static == "property":
             new = property(make(orig_attr.fget))
-        setattr(obj, attr, classmethod(new) if static == "class" else new if static == "property" else
+        if static == "setter":
+            new = orig_attr.setter(make(orig_attr.fset))
+        setattr(obj, attr, classmethod(new) if static == "class" else new if static in ("property", "setter") else
                 staticmethod(new) if static else new)
         try:
             found = []
